@@ -102,6 +102,25 @@ func Run(r *core.Run) {
 					return &core.Fail{Key: id, What: fmt.Sprintf("patch %s produced from the document does not validate: %v", b, err), Detail: det}
 				}
 			}
+			// all patches serialized first, parsed afterwards: the bytes of one patch must still be that patch after the others
+			// (and a document) have been serialized
+			var kept [][]byte
+			for _, p := range ps {
+				b, err := p.Bytes()
+				if err != nil {
+					return &core.Fail{Key: id, What: "Bytes failed on a constructor-made patch: " + err.Error(), Detail: det}
+				}
+				kept = append(kept, b)
+			}
+			if dd, err := document.FromBytes([]byte(d)); err == nil {
+				_, _ = dd.Bytes()
+			}
+			for i, b := range kept {
+				q, err := patch.FromBytes(b)
+				if err != nil || core.J(generic(q)) != core.J(generic(ps[i])) {
+					return &core.Fail{Key: id, What: fmt.Sprintf("the bytes of patch %d, kept while the other patches and the document were serialized, now read %.200q (FromBytes: %v) instead of patch %s", i, b, err, core.J(generic(ps[i]))), Detail: det}
+				}
+			}
 			res, err := dc.ApplyPatches(document.Document{}, ps)
 			if err != nil {
 				return &core.Fail{Key: id, What: "patches of the document do not apply to the empty document: " + err.Error(), Detail: det}
